@@ -48,31 +48,33 @@ Proof.
   apply Z.mod_pos_bound. reflexivity.
 Qed.
 
+Arguments next : simpl never.
+
 Lemma seed_wf seed : wf (seed_state seed).
 Proof.
-  unfold wf, seed_state; simpl. repeat split; try (unfold M32; lia).
-  - apply lxor_word; [unfold word, M32; lia | apply land_mask_word].
-  - apply lxor_word; [unfold word, M32; lia | apply land_mask_word].
+  unfold wf, seed_state; cbn [sx sy sz sw].
+  split; [unfold word, M32; lia|]. split; [unfold word, M32; lia|]. split; [unfold word, M32; lia|].
+  apply lxor_word; [unfold word, M32; lia | apply land_mask_word].
 Qed.
 
 Lemma next_word s : wf s -> word (fst (next s)) /\ wf (snd (next s)).
 Proof.
-  intros (Hx & Hy & Hz & Hw). unfold next; simpl.
+  intros (Hx & Hy & Hz & Hw). unfold next; cbn [fst snd].
   assert (Hn : word (Z.lxor (Z.lxor (sw s) (Z.shiftr (sw s) 19))
       (Z.lxor (Z.land (Z.lxor (sx s) (Z.shiftl (sx s) 11)) MASK32)
          (Z.shiftr (Z.land (Z.lxor (sx s) (Z.shiftl (sx s) 11)) MASK32) 8)))).
   { apply lxor_word; apply lxor_word; auto using land_mask_word.
     - apply shiftr_word; [lia|auto].
     - apply shiftr_word; [lia|apply land_mask_word]. }
-  split; [exact Hn|]. unfold wf; simpl. auto.
+  split; [exact Hn|]. unfold wf; cbn [sx sy sz sw]. auto.
 Qed.
 
 Lemma words_word n : forall s, wf s -> Forall word (words n s).
 Proof.
-  induction n as [|n IH]; intros s Hs; simpl; [constructor|].
+  induction n as [|n IH]; intros s Hs; cbn [words]; [constructor|].
   destruct (next s) as [x s'] eqn:E.
   pose proof (next_word s Hs) as [H1 H2]. rewrite E in H1, H2; simpl in H1, H2.
-  constructor; auto.
+  constructor; [exact H1 | apply IH; exact H2].
 Qed.
 
 (* ------------------------------------------------------------------ the rejection loop *)
@@ -83,7 +85,7 @@ Fixpoint after (k : nat) (s : xs) : xs :=
 Definition word_at (k : nat) (s : xs) : Z := fst (next (after k s)).
 
 Lemma after_wf k : forall s, wf s -> wf (after k s).
-Proof. induction k; simpl; intros s Hs; auto. apply IHk. apply next_word; assumption. Qed.
+Proof. induction k; cbn [after]; intros s Hs; auto. apply IHk. apply next_word; assumption. Qed.
 
 (* draw_below returns the first raw word below the limit *)
 Lemma draw_below_first fuel limit : forall s x s',
@@ -91,22 +93,22 @@ Lemma draw_below_first fuel limit : forall s x s',
   exists k, (k < fuel)%nat /\ x = word_at k s /\ s' = after (S k) s /\ x < limit /\
             forall j, (j < k)%nat -> limit <= word_at j s.
 Proof.
-  induction fuel as [|f IH]; intros s x s' H; simpl in H; [discriminate|].
+  induction fuel as [|f IH]; intros s x s' H; cbn [draw_below] in H; [discriminate|].
   destruct (next s) as [y s1] eqn:E.
   destruct (y <? limit) eqn:L.
-  - inversion H; subst. exists O. unfold word_at; simpl. rewrite E; simpl.
-    repeat split; try lia. apply Z.ltb_lt; exact L.
+  - inversion H; subst. exists O. unfold word_at; cbn [after]. rewrite E; cbn [fst snd].
+    repeat split; try lia; try reflexivity.
   - apply IH in H. destruct H as (k & Hk & Hx & Hs & Hl & Hj).
-    exists (S k). unfold word_at in *; simpl. rewrite E; simpl.
+    exists (S k). unfold word_at in *; cbn [after]. rewrite E; cbn [fst snd].
     repeat split; auto; try lia.
-    intros j Hjk. destruct j as [|j]; simpl.
-    + rewrite E; simpl. apply Z.ltb_ge; exact L.
-    + rewrite E; simpl. apply Hj. lia.
+    intros j Hjk. destruct j as [|j]; cbn [after].
+    + rewrite E; cbn [fst snd]. apply Z.ltb_ge; exact L.
+    + rewrite E; cbn [fst snd]. apply Hj. lia.
 Qed.
 
 Lemma draw_below_no_raise fuel limit : forall s e, draw_below fuel limit s <> Raise e.
 Proof.
-  induction fuel; intros s e; simpl; [discriminate|].
+  induction fuel; intros s e; cbn [draw_below]; [discriminate|].
   destruct (next s) as [y s1]. destruct (y <? limit); [discriminate|apply IHfuel].
 Qed.
 
@@ -223,20 +225,18 @@ Proof.
   eapply nth_error_In; exact N.
 Qed.
 
-Lemma choice_raises {A} (l : list A) s e : choice l s = Raise e -> e = ValueError /\ l = [].
+(* choice raises only ValueError (empty candidates; a list of 2^32 or more
+   elements would also exceed randint's domain) *)
+Lemma choice_raises {A} (l : list A) s e : choice l s = Raise e -> e = ValueError.
 Proof.
   destruct l as [|x l]; [intros H; inversion H; auto|].
   unfold choice, bindR. set (n := Z.of_nat (length (x :: l)) - 1).
   destruct (randint 0 n s) as [idx s1| |] eqn:R; try discriminate.
   - pose proof (randint_range _ _ _ _ _ R) as Hr.
     destruct (nth_error (x :: l) (Z.to_nat idx)) eqn:N; [discriminate|].
-    exfalso. apply nth_error_None in N. unfold n in Hr. simpl length in *. lia.
-  - intros H; inversion H; subst. apply randint_raises in R. destruct R as [_ [R|R]]; unfold n in R.
-    + exfalso. simpl length in R. lia.
-    + exfalso. revert R. unfold M32. simpl length.
-      (* a Python list has fewer than 2^32 elements only as an assumption; the model raises ValueError *)
-      intros R. (* cannot exclude: keep the honest statement below *)
-Abort.
+    exfalso. apply nth_error_None in N. unfold n in Hr. cbn [length] in *. lia.
+  - intros H; inversion H; subst. apply randint_raises in R. tauto.
+Qed.
 
 Lemma choice_wf {A} (l : list A) s a s' : wf s -> choice l s = Done a s' -> wf s'.
 Proof.
